@@ -235,6 +235,40 @@ def Notation.Valid (n : Notation) : Prop :=
   (n.minus = '-' ∨ n.minus = '−') ∧
   (∀ c ∈ n.extraDigits, isDig c = true)
 
+-- ------------------------------------------------------------------ timestamps that keep their offset
+
+/-- The UTC offset (seconds east) a text accepted by `parseRfc3339` is written in. -/
+def zoneOf (s : Str) : Option Int :=
+  match s.getLast? with
+  | some c => if c = 'Z' ∨ c = 'z' then some 0 else parseZone (s.drop (s.length - 6))
+  | none => none
+
+def three (n : Nat) : Str := [digitChar (n / 100), digitChar (n / 10), digitChar n]
+
+def six (n : Nat) : Str :=
+  [digitChar (n / 100000), digitChar (n / 10000), digitChar (n / 1000), digitChar (n / 100), digitChar (n / 10), digitChar n]
+
+/-- `SecondsFormat::AutoSi`: no fraction, or 3, 6 or 9 digits -/
+def fracAutoSi (n : Nat) : Str :=
+  if n = 0 then [] else if n % 1000000 = 0 then '.' :: three (n / 1000000)
+  else if n % 1000 = 0 then '.' :: six (n / 1000) else '.' :: nine n
+
+def zoneTextOff (offSec : Int) : Str :=
+  if offSec = 0 then ['Z']
+  else (if offSec < 0 then '-' else '+') :: (two (offSec.natAbs / 3600) ++ [':'] ++ two (offSec.natAbs % 3600 / 60))
+
+/-- `to_rfc3339_opts(SecondsFormat::AutoSi, true)` of an instant held with a UTC offset
+    (`DateTime<FixedOffset>`, the SLSA `TimeStamp`). -/
+def fmtAutoSi (t : Time) (offSec : Int) : Str :=
+  dateTimeText (t.secs + offSec) (if t.nanos ≥ 1000000000 then 1 else 0) 'T' ++
+    fracAutoSi (t.nanos % 1000000000) ++ zoneTextOff offSec
+
+/-- read and write again: the normal form of a timestamp text -/
+def normTimeStamp (s : Str) : Option Str :=
+  match parseRfc3339 s, zoneOf s with
+  | some t, some off => some (fmtAutoSi t off)
+  | _, _ => none
+
 /-- What chrono can hold and the four-digit year can express: a UTC year 0000–9999, and a leap
     second only on second 59 of a minute. -/
 def Time.Representable (t : Time) : Prop :=
